@@ -244,7 +244,9 @@ func runC06History(seed int64, idx int, tier string) *c06Result {
 				r.P, r.HasP = curParts, true
 				r.Class = "open-next-part"
 			default:
-				r.P, r.HasP = curParts+1+rng.Intn(3), true
+				// one to three parts ahead, or far beyond anything the segment will ever hold (no
+				// advance limit is stated: the request rolls over to the next segment when this one ends)
+				r.P, r.HasP = curParts+[]int{1, 2, 3, 3, 4, 5, 8, 13, 50}[rng.Intn(9)], true
 				r.Class = "open-beyond"
 			}
 		case "next":
